@@ -97,12 +97,18 @@ def run(ctx):
     if res.violated != 'Repeatable':
         raise MachineryError('what-if ResetCounts=FALSE did not violate Repeatable')
     ctx.coverage['whatif_budget_carry_over'] = 'violates Repeatable after %d steps' % len(res.trace)
-    res = run_tlc('Engine', engine_cfg(ctx, 'whatif_raise.cfg', invs=['NoPoison'], raises=1, K=3, funcs='3', queries=1),
-                  workers=16, timeout=3000)
-    ctx.add_tlc(res, 'model observation: an exception escaping mid-inference leaves a memo default (NoPoison fails)')
-    ctx.coverage['model_observation_exception_poison'] = \
-        'NoPoison %s with Raise enabled; not reproducible against the real code with the internal exceptions ' \
-        'available in this tree, so recorded as a model observation, not a finding' % ('fails' if res.violated else 'holds')
+    res = run_tlc('Engine', engine_cfg(ctx, 'raise.cfg', invs=['NoPoison', 'Repeatable', 'Balanced'], raises=1, K=3, funcs='3',
+                                       queries=2), workers=16, timeout=3000)
+    ctx.add_tlc(res, 'queries that raise in the middle of an inference: NoPoison, Repeatable, Balanced')
+    if res.violated:
+        ctx.violation('design:%s' % res.violated, 'Engine.tla with Raise violates %s' % res.violated, {'trace': res.trace[-3:]})
+        return ctx.finish()
+    res = run_tlc('Engine', engine_cfg(ctx, 'whatif_raise.cfg', invs=['NoPoison'], raises=1, popdef='FALSE', K=3, funcs='3',
+                                       queries=1), workers=16, timeout=3000)
+    ctx.add_tlc(res, 'what-if PopDefaultOnRaise=FALSE (the code before the fix; must fail)')
+    if res.violated != 'NoPoison':
+        raise MachineryError('what-if PopDefaultOnRaise=FALSE did not violate NoPoison')
+    ctx.coverage['whatif_default_left_behind'] = 'violates NoPoison'
     # ---- 2. sources and histories
     res = run_tlc('Engine', engine_cfg(ctx, 'ans.cfg', invs=[], extra='CONSTRAINT EmitAnswer\n', queries=0), workers=1,
                   timeout=1800)
@@ -198,20 +204,20 @@ def run(ctx):
     nobs = 0
     for si, (name, src, path, qs, model) in enumerate(sources):
         ev = []
-        for qi, (dg, oc) in enumerate(fresh[si]):
+        for qi, (dg, oc, _sd) in enumerate(fresh[si]):
             ev.append(full({'ev': 'Obs', 'key': qi + 1, 'val': dg}))
         for (sj, hist), obs in zip(hist_index, same):
             if sj != si:
                 continue
-            for qi, (dg, oc) in zip(hist, obs):
+            for qi, (dg, oc, _sd) in zip(hist, obs):
                 ev.append(full({'ev': 'Obs', 'key': qi + 1, 'val': dg}))
         nobs += len(ev)
         traces.append(ev)
         owners.append(('repeatability', si))
         if si in cross:
-            ev2 = [full({'ev': 'Obs', 'key': qi + 1, 'val': dg}) for qi, (dg, oc) in enumerate(fresh[si])]
+            ev2 = [full({'ev': 'Obs', 'key': qi + 1, 'val': dg}) for qi, (dg, oc, _sd) in enumerate(fresh[si])]
             for r in cross[si]:
-                ev2 += [full({'ev': 'Obs', 'key': qi + 1, 'val': dg}) for qi, (dg, oc) in enumerate(r)]
+                ev2 += [full({'ev': 'Obs', 'key': qi + 1, 'val': dg}) for qi, (dg, oc, _sd) in enumerate(r)]
             nobs += len(ev2)
             traces.append(ev2)
             owners.append(('cross-process', si))
@@ -219,16 +225,42 @@ def run(ctx):
         if model is not None:
             pass
     ctx.coverage['observations'] = nobs
-    ctx.coverage['failing_queries_in_histories'] = sum(1 for obs in same for (dg, oc) in obs if oc != 'ok')
+    ctx.coverage['failing_queries_in_histories'] = sum(1 for obs in same for (dg, oc, _sd) in obs if oc != 'ok')
     ctx.log('validating %d observation traces (%d observations)' % (len(traces), nobs))
     vs = validate_traces('Trace_Engine', 'Trace_Engine.cfg', traces, ctx, 'Trace_Engine observations', chunk=800, timeout=3000)
-    for v, t, (kind, si) in zip(vs, traces, owners):
+    # TLC's verdict says WHICH traces break the functional dependence; the classification of a rejected
+    # trace (order only / content / history) needs the raw observations
+    rejected = sorted(set(si for v, (kind, si) in zip(vs, owners) if not v['accepted']))
+    extra = {}
+    if rejected:
+        ps = [run_proc(ctx, [fresh_jobs[si] for si in rejected], sd, pert, 'cls%d' % k)
+              for k, (sd, pert) in enumerate([(5, 3), ('random', 17), (6, 29), ('random', 41)])]
+        for o in collect(ps):
+            for si, r in zip(rejected, o):
+                extra.setdefault(si, []).append(r)
+    for si in rejected:
         name, src, path, qs, _ = sources[si]
-        if not v['accepted']:
-            q = qs[t[v['at'] - 1]['key'] - 1] if v['at'] else None
-            ctx.violation('%s:%s' % (kind, name.split(':')[0] if not name.startswith('graph') else 'graph'),
-                          'the result of a query is not a function of (text, position, method): %s' % kind,
-                          {'source': src if len(src) < 4000 else src[:4000], 'path': path, 'query': q, 'kind': kind})
+        fresh_runs = [fresh[si]] + cross.get(si, []) + extra.get(si, [])
+        hist_obs = {}
+        for (sj, hist), obs in zip(hist_index, same):
+            if sj == si:
+                for qi, o in zip(hist, obs):
+                    hist_obs.setdefault(qi, []).append(o)
+        for qi, q in enumerate(qs):
+            ords = set(r[qi][0] for r in fresh_runs)
+            sets = set(r[qi][2] for r in fresh_runs)
+            hist_ords = set(o[0] for o in hist_obs.get(qi, []))
+            desc = {'source': src if len(src) < 4000 else src[:4000], 'path': path, 'query': q,
+                    'fresh_runs': len(fresh_runs)}
+            if len(sets) > 1:
+                ctx.violation('nondeterministic-content:%s' % q[0], 'fresh processes return different result SETS for the same '
+                              'query (an element of an inferred value set is picked by iteration order)', desc)
+            elif len(ords) > 1:
+                ctx.violation('nondeterministic-order:%s' % q[0], 'fresh processes return the same results in different order',
+                              desc)
+            elif hist_ords and not hist_ords <= ords:
+                ctx.violation('repeatability:%s' % (name.split(':')[0] if not name.startswith('graph') else 'graph'),
+                              'on one Script, after other queries, a query answers differently from a fresh Script', desc)
     for (name, src, path, qs, _) in sources[:3]:
         ctx.sample({'source': name, 'queries': qs[:5], 'text': src[:300]})
     # model answers vs code answers of the reference queries (drift)
